@@ -42,9 +42,10 @@ type ObjE struct {
 	Val  string `json:"val"`
 }
 type TripleE struct {
-	S int `json:"s"`
-	P int `json:"p"`
-	O int `json:"o"`
+	S  int `json:"s"`
+	P  int `json:"p"`
+	O  int `json:"o"`
+	CP int `json:"cp"` // concrete spelling of the predicate this triple is stored with (0 = canonical)
 }
 
 type Universe struct {
@@ -127,7 +128,14 @@ func Load(path string) (*Universe, error) {
 		}
 	}
 	for _, t := range u.Triples {
-		tt, err := triple.New(u.nodes[t.S-1], u.cpreds[u.canon[t.P]-1], u.objs[t.O-1])
+		cp := u.canon[t.P]
+		if t.CP > 0 {
+			if u.CPreds[t.CP-1].Abs != t.P {
+				return nil, fmt.Errorf("triple: spelling %d is not a spelling of predicate %d", t.CP, t.P)
+			}
+			cp = t.CP
+		}
+		tt, err := triple.New(u.nodes[t.S-1], u.cpreds[cp-1], u.objs[t.O-1])
 		if err != nil {
 			return nil, err
 		}
